@@ -3,7 +3,7 @@
 //! of the property named by VERIF_PROP inside the target.
 //!
 //! A violation is written to $VERIF_FUZZ_OUT/viol-<pid>.json (case + signature) and the process
-//! aborts, so libFuzzer saves the input; inputs in the domain of a listed known finding are skipped
+//! aborts, so libFuzzer saves the input; failures that belong to a listed known finding are skipped
 //! (otherwise a campaign rediscovers one finding forever) unless VERIF_FUZZ_STRICT=1.
 
 #[path = "../../vcheck/src/fmtimpl.rs"]
@@ -91,11 +91,30 @@ fn report(prop: &str, case: serde_json::Value, sig: &str, detail: &str) -> ! {
 pub fn run<P: Prop>(p: &P, case: &P::Case) {
     let c = ctx();
     let e = env(c);
-    if !c.strict && p.excluded(case, &e).is_some() {
+    // known findings as in the engine (vlib::engine::eval): precise + frequent ones are excluded up front;
+    // otherwise the oracle runs, and a failing case that contains a trigger is shrunk and looked at again
+    if !c.strict && p.excluded_up_front(case, &e).is_some() {
         return;
     }
     let mut st = Stats::default();
     if let Verdict::Fail(f) = p.check(case, &e, &mut st) {
+        if !c.strict && p.excluded(case, &e).is_some() {
+            let sig = f.sig.clone();
+            let mut budget = 1500u32;
+            let mut fails = |cand: &P::Case| -> bool {
+                if budget == 0 {
+                    return false;
+                }
+                budget -= 1;
+                let mut sc = Stats::default();
+                matches!(p.check(cand, &e, &mut sc), Verdict::Fail(f2) if f2.sig == sig)
+            };
+            let reduced = p.reduce(case, &e, &mut fails);
+            if p.excluded(&reduced, &e).is_some() {
+                return;
+            }
+            report(p.id(), serde_json::to_value(&reduced).unwrap_or_default(), &f.sig, &f.detail);
+        }
         report(p.id(), serde_json::to_value(case).unwrap_or_default(), &f.sig, &f.detail);
     }
 }
